@@ -376,11 +376,16 @@ class CallMixin:
         c = exc_class_of(name)
         if c is not None and isinstance(c, type) and issubclass(c, BaseException):
             return ExcV(c, [a for a in args if isinstance(a, V)], node)
+        if name == "builtins.bool" and h is None and len(args) == 1 and isinstance(args[0], Const) and not kwargs:
+            return Const(bool(args[0].value))
         if name in KIND_NAMES and h is None:
             self.emit("call", node, callee=name, args=args, kwargs=kwargs, resolved=True, external=True)
             if name in PARTIAL_CALLS and args:
                 self.partial(name, PARTIAL_CALLS[name] + (TypeError,), node, operands=tuple(a for a in args if isinstance(a, V)))
-            return Term("call", (name,) + tuple(a for a in args if isinstance(a, V)), kind=KIND_NAMES[name], node=node)
+            t = Term("call", (name,) + tuple(a for a in args if isinstance(a, V)), kind=KIND_NAMES[name], node=node)
+            if KIND_NAMES[name] in ("int", "float", "str", "bytes", "bool", "list", "dict", "tuple", "set", "frozenset", "bytearray"):
+                t.exact = True      # type: ignore[attr-defined]   # K(x) is an instance of exactly K
+            return t
         if h is not None:
             r = h(args, kwargs, node)
             if r is not None:
@@ -394,7 +399,8 @@ class CallMixin:
                 "math.floor": "int", "math.ceil": "int", "builtins.repr": "str", "builtins.str": "str",
                 "random.randint": "int", "random.uniform": "float", "copy.deepcopy": None,
                 "builtins.sorted": "list", "builtins.hash": "int", "builtins.abs": None,
-                "builtins.chr": "str"}.get(name)
+                "builtins.chr": "str", "builtins.object.__repr__": "str", "builtins.object.__str__": "str",
+                "builtins.ascii": "str", "builtins.hex": "str"}.get(name)
         if name == "builtins.round" and len(args) >= 2:
             kind = "float"
         kw_terms = tuple(Term("kw", (k, v)) for k, v in sorted(kwargs.items()) if isinstance(v, V) and not k.startswith("**")) \
@@ -653,6 +659,7 @@ class CallMixin:
             return Const(repr(args[0].value))
         if args:
             self.emit("format", node, value=args[0], conv="r")
+            self.render_partial(args[0], node)
             return StrV([(args[0], "r")])
         return None
 
@@ -662,6 +669,7 @@ class CallMixin:
         if args and isinstance(args[0], StrV):
             return args[0]
         if args:
+            self.render_partial(args[0], node)
             return StrV([(args[0], "s")])
         return Const("")
 
